@@ -274,6 +274,7 @@ namespace plan
     std::vector<std::string> rr_names;
     std::vector<mpq_class> rr_caps;
     std::vector<int> sv_insts; // indices into insts of state-variable instances
+    std::set<std::string> mentioned; // root names of every path used in some constraint / argument
 
     // all real fields of a class, super first
     void all_rfields(int c, std::vector<std::string> &out) const
